@@ -69,7 +69,7 @@ def probes(locs):
     return out
 
 def run_history(I, cfgname, n, hist, pattern, conc=None):
-    """hist: list of segments; each segment = list of ops followed by a save.  pattern: 'diff' | 'same'.
+    """hist: list of segments; each segment = list of ops followed by a save.  pattern: 'diff' | 'same' | 'alt'.
     returns (records: per save {label: value}, probe symbol table)"""
     cfg = P.CONFIGS[cfgname]
     I.concrete_env = True
@@ -84,7 +84,7 @@ def run_history(I, cfgname, n, hist, pattern, conc=None):
         for lc in pr:
             p = lc.ptr(I, sim)
             orig = I.mem.load(p, lc.ty)
-            if pattern == 'same' and lc.label in first:
+            if (pattern == 'same' or (pattern == 'alt' and k % 2 == 0)) and lc.label in first:
                 v = first[lc.label]
             else:
                 nm = 'P%d!%s' % (k, lc.label)
@@ -210,7 +210,7 @@ def _native_history(cfgname, n, hist, pattern, conc):
                 if a is None: continue
                 CT = ctypes.c_uint64
                 orig = CT.from_address(a).value
-                if pattern == 'same' and lc.label in first: v = first[lc.label]
+                if (pattern == 'same' or (pattern == 'alt' and k % 2 == 0)) and lc.label in first: v = first[lc.label]
                 else:
                     v = conc.get('P%d!%s' % (k, lc.label), 0)
                     if lc.label not in first: first[lc.label] = v
@@ -269,7 +269,7 @@ def native_snapshot_compare(cfgname, n, hist, pattern, conc):
                 a = lc.naddr(ns)
                 if a is None: continue
                 orig = ctypes.c_uint64.from_address(a).value
-                if pattern == 'same' and lc.label in first: v = first[lc.label]
+                if (pattern == 'same' or (pattern == 'alt' and k % 2 == 0)) and lc.label in first: v = first[lc.label]
                 else:
                     v = conc.get('P%d!%s' % (k, lc.label), 0)
                     if lc.label not in first: first[lc.label] = v
@@ -344,7 +344,8 @@ def histories(tier):
         ('saba', [[], [st], [['switch', 'WHFAST'], st]]),
     ]
     for cfg, h in curated:
-        for pat in ('diff', 'same'):
+        # 'alt': the probes return to the FIRST snapshot's values at every second save (t back at t0 after an excursion, ...)
+        for pat in ('diff', 'same') + (('alt',) if len(h) >= 3 else ()):
             H.append(dict(cfg=cfg, n=2, hist=h, pattern=pat))
     if tier == 'thorough':
         ops = [[st], [['add']], [['remove', 1]], [['remove_all']], [['reset_integrator']], [['switch', 'WHFAST'], ['set', 'dt', 0.01]], [['switch', 'IAS15']], [['switch', 'LEAPFROG']], [['add_var']], []]
@@ -375,7 +376,7 @@ def main():
     code = finish(PID, tier, rep, t0,
         bounds=dict(histories=len(us), snapshots_per_archive='2..4', operations_between_snapshots='0..3', particles=2),
         assumptions=['malloc never fails; model file system with program-order writes', 'probe quantities (t, dt, one coordinate per particle, first element of each integrator array) are arbitrary bit patterns per snapshot, constrained by the pattern (all differ from / all equal to the first snapshot); all other persisted values are the concrete values of the real history',
-                     'walltime* fields excluded', 'histories enumerated from a fixed operation alphabet (quick: 16 curated structural histories x 2 patterns)'],
+                     'walltime* fields excluded', 'histories enumerated from a fixed operation alphabet (quick: 16 curated structural histories x 2-3 patterns: all probes differ from / equal those of the first snapshot / alternate)'],
         outside=['automatic snapshot cadence (interval/step/walltime heartbeat)', 'archives with more than 4 snapshots', 'mixed same/diff patterns per field (thorough only covers uniform patterns)', 'legacy archive versions (<3, 16-bit offsets)'],
         domain_note='UF/BITS')
     sys.exit(code)
